@@ -365,13 +365,28 @@ def run(ctx):
                        "reads the variables before the tokens are applied judges the environment although the command line outranks it")
     allowed_callers = {NS + k + "::check" for k in KINDS}
     ncallers = 0
-    for target in sorted(t for t in cg.redges if t.startswith(ENV_GET + "(") or t.startswith(NS + "toggle::parse_env_value(")):
+    def _only_from_check(fid, seen=()):
+        """a helper that is itself reached from the check() functions only (a shared `read_env()` the three of them call) stands for them"""
+        g = prog.fn(fid)
+        if g is None:
+            return False
+        if g.qual in allowed_callers:
+            return True
+        if fid in seen or len(seen) > 6:
+            return False
+        cs = [c0 for c0 in cg.callers(fid) if prog.fn(c0) is not None and prog.fn(c0).file.startswith("/repo/")]
+        # (calls that the normalisation pass spliced into their callers are no longer in the call graph: the log remembers who called)
+        cs += [caller for (caller, callee, how) in (getattr(prog, "inline_log", None) or []) if callee == fid and how in ("expression", "statement")]
+        return bool(cs) and all(_only_from_check(c0, seen + (fid,)) for c0 in cs)
+    targets = [t for t in cg.redges if prog.fn(t) is not None and prog.fn(t).kind != "lambda" and prog.fn(t).qual in (ENV_GET, NS + "toggle::parse_env_value")]
+    targets += [t for t in cg.redges if prog.fn(t) is None and t.startswith(ENV_GET + "(") and "::(anonymous" not in t and "lambda" not in t]
+    for target in sorted(set(targets)):
         for c in sorted(cg.callers(target)):
             cf = prog.fn(c)
             if cf is None or not cf.file.startswith("/repo/") or "/options/" not in cf.file:
                 continue
             ncallers += 1
-            ctx.check(cf.qual in allowed_callers, "R03.11", cf, "consults-environment:%s->%s" % (short(cf.qual), short(target.split("(")[0])),
+            ctx.check(_only_from_check(c), "R03.11", cf, "consults-environment:%s->%s" % (short(cf.qual), short(target.split("(")[0])),
                       "%s calls %s: outside the check() functions nothing knows whether the option was given on the command line - a given toggle or option is then judged by (or "
                       "refused for) its environment variable" % (short(cf.qual), short(target.split("(")[0])), cf, why_ok="a check() function")
     ctx.need("R03.11", "callers of env::get / parse_env_value in the options code", ncallers, 4)
